@@ -1190,6 +1190,109 @@ pub fn run_edits(s: &mut Src, ctx: &mut Ctx) -> Verdict {
     judge(t, &text, ctx)
 }
 
+// ------------------------------------------------------------------ wide names, then one edit
+
+const WIDE_POOL: [char; 14] = ['a', 'Z', '0', '_', '-', 'é', 'ß', '日', '😀', 'İ', '\u{a0}', 'Ω', '\u{301}', '“'];
+
+/// A valid text whose quoted names and strings were replaced by long runs of characters of mixed UTF-8 width (so
+/// that, further on in the text, hardly any byte offset reckoned from another one falls on a character boundary),
+/// and then ONE edit that makes it malformed late: a structural character deleted, a truncation, a deleted
+/// character, an extreme number, a dropped bracket group -- or none.
+fn gen_wide_edit(s: &mut Src) -> (Target, usize, String) {
+    let t = ALL_TARGETS[s.below(ALL_TARGETS.len())];
+    let sd = seeds(t.lang());
+    let seed = sd[s.below(sd.len())];
+    let mut wide = String::new();
+    let mut it = seed.chars().peekable();
+    let mut widened = 0;
+    while let Some(c) = it.next() {
+        wide.push(c);
+        if c != '"' {
+            continue;
+        }
+        let mut content = String::new();
+        let mut closed = false;
+        for d in it.by_ref() {
+            if d == '"' {
+                closed = true;
+                break;
+            }
+            content.push(d);
+        }
+        if closed && s.chance(3, 4) {
+            let n = match s.below(3) {
+                0 => 1 + s.below(8),
+                1 => 20 + s.below(41),
+                _ => 60 + s.below(91),
+            };
+            for _ in 0..n {
+                wide.push(WIDE_POOL[s.below(WIDE_POOL.len())]);
+            }
+            widened += 1;
+        } else {
+            wide.push_str(&content);
+        }
+        if closed {
+            wide.push('"');
+        }
+    }
+    let _ = widened;
+    let chars: Vec<char> = wide.chars().collect();
+    let op = s.below(6);
+    let text = match op {
+        0 => wide.clone(),
+        1 => {
+            let cut = s.below(wide.len() + 1);
+            String::from_utf8_lossy(&wide.as_bytes()[..cut]).into_owned()
+        }
+        2 => {
+            let p = s.below(chars.len().max(1));
+            chars.iter().enumerate().filter(|(i, _)| *i != p).map(|(_, c)| *c).collect()
+        }
+        3 => {
+            let at: Vec<usize> = chars.iter().enumerate().filter(|(_, c)| ")(\"'},;:]{[".contains(**c)).map(|(i, _)| i).collect();
+            if at.is_empty() {
+                wide.clone()
+            } else {
+                let p = at[s.below(at.len())];
+                chars.iter().enumerate().filter(|(i, _)| *i != p).map(|(_, c)| *c).collect()
+            }
+        }
+        4 => {
+            let runs = digit_runs(&wide).len().max(1);
+            let which = s.below(runs);
+            let by = EXTREME_NUMBERS[s.below(EXTREME_NUMBERS.len())];
+            replace_number(&wide, which, by)
+        }
+        _ => {
+            let groups = bracket_groups(&chars).len().max(1);
+            let which = s.below(groups);
+            let keep = s.below(2) == 1;
+            drop_group(&wide, which, keep)
+        }
+    };
+    (t, op, clamp(text))
+}
+
+pub fn run_wide_edits(s: &mut Src, ctx: &mut Ctx) -> Verdict {
+    let (t, op, text) = gen_wide_edit(s);
+    if probe_only() {
+        return Verdict::Pass;
+    }
+    let text = apply_exclusions(t, text, false, ctx);
+    ctx.describe(|| format!("{} [wide names, edit op {}] {:?}", t.name(), op, text));
+    ctx.label(target_label(t));
+    ctx.label(match op {
+        0 => "wide:no-edit",
+        1 => "wide:truncate",
+        2 => "wide:delete-char",
+        3 => "wide:delete-structural-char",
+        4 => "wide:extreme-number",
+        _ => "wide:drop-bracket-group",
+    });
+    judge(t, &text, ctx)
+}
+
 // ------------------------------------------------------------------ structured extremes
 
 /// repeated units (prefix operators, unbalanced openers/quotes, infix chains, multi-byte runs)
@@ -1734,6 +1837,7 @@ pub fn property() -> Property {
             Part { name: "stream", run: run_stream, quick: Budget::Random { cases: 5 * q, bytes: b }, thorough: Budget::Random { cases: 100 * q, bytes: b }, min_nontrivial_pct: 25 },
             Part { name: "eval", run: run_eval, quick: Budget::Random { cases: 5 * q, bytes: b }, thorough: Budget::Random { cases: 100 * q, bytes: b }, min_nontrivial_pct: 40 },
             Part { name: "edits", run: run_edits, quick: Budget::Exhaustive { param: 1 }, thorough: Budget::Exhaustive { param: 2 }, min_nontrivial_pct: 0 },
+            Part { name: "wide-edits", run: run_wide_edits, quick: Budget::Random { cases: 10 * q, bytes: 700 }, thorough: Budget::Random { cases: 200 * q, bytes: 700 }, min_nontrivial_pct: 10 },
             Part { name: "text", run: run_text, quick: Budget::Skip, thorough: Budget::Skip, min_nontrivial_pct: 0 },
             Part { name: "deep", run: run_deep, quick: Budget::Exhaustive { param: 10 }, thorough: Budget::Exhaustive { param: 13 }, min_nontrivial_pct: 0 },
             Part { name: "modgraph", run: run_modgraph, quick: Budget::Exhaustive { param: 1 }, thorough: Budget::Exhaustive { param: 1 }, min_nontrivial_pct: 0 },
